@@ -77,9 +77,8 @@ func (c *CppCommentState) NextToken(
 		str := c.GetSingleLineComment(scanner)
 		return tokenizers.NewToken(tokenizers.Comment, "//"+str, line, column)
 	} else {
-		if !utilities.CharValidator.IsEof(secondSymbol) {
-			scanner.Unread()
-		}
+		// The scanner also steps into the end-of-input slot, so the look-ahead is always unread.
+		scanner.Unread()
 		if !utilities.CharValidator.IsEof(firstSymbol) {
 			scanner.Unread()
 		}
